@@ -196,6 +196,10 @@ def _check_unary(Bitset, bu, mon, v, n, acc, full=True):
     for i in range(n):
         if not mon.eq("index", a[i], model[i], dict(case, i=i)):
             break
+    if n >= 2:
+        # an index spelled as a bool is the integer 0 / 1
+        mon.eq("index", a[False], model[0], dict(case, i="False"))
+        mon.eq("index", a[True], model[1], dict(case, i="True"))
     ks = range(0, n + 1) if full else sorted({0, 1, n // 2, max(n - 1, 0), n})
     for k in ks:
         c2 = dict(case, k=k)
